@@ -34,6 +34,8 @@ def run(c):
         nh += len(hs)
         for i, h in enumerate(hs):
             params = dict(pe.START[start], ops=h, recursive=(i % 3 != 2), paced=True, full=(i % 4 == 3))
+            if i % 3 == 1:
+                params["names"] = pe.PREFIX_NAMES
             for spec in pe.timings(c.seed + i, n_random=1, n_pct=0)[1:]:
                 sound.append((params, spec))
             # contract: one operation at a time; every (recursive, full) combination over the histories
